@@ -684,29 +684,26 @@ def gen_cases(rng, tier, chk):
     # isprimepower at every bound of the file's tables: bases around the last table prime 997 / SMALLEST_OMITTED_PRIME 1009 /
     # TABMAX / TABMAX2, exponents (prime, composite with such a factor) around the same bounds -- numbers of up to ~40000 bits,
     # which the real code answers in milliseconds -- and non-powers next to them
-    bases = [2, 3, 5, 991, 997, 1009, 1013, 10007, 32749, 32771, 65521, 65537]
-    exps = [2, 3, 4, 6, 9, 25, 49, 121, 991, 997, 1009, 1013, 1019, 2 * 997, 2 * 1009, 3 * 1009, 3 * 1013, 2 * 1021, 997 * 2 * 2, 1031, 1499, 2003]
-    big = []
+    if thorough:
+        bases = [2, 3, 5, 991, 997, 1009, 1013, 10007, 32749, 32771, 65521, 65537]
+        exps = [2, 3, 4, 6, 9, 25, 49, 121, 991, 997, 1009, 1013, 1019, 2 * 997, 2 * 1009, 3 * 1009, 3 * 1013, 2 * 1021, 997 * 2 * 2, 1031, 1499, 2003]
+    else:
+        bases = [3, 991, 997, 1009, 1013, 10007, 65537]
+        exps = [2, 3, 4, 6, 9, 997, 1009, 1013, 2 * 1009, 3 * 1009]
     for p in bases:
         for e in exps:
-            if p.bit_length() * e <= ((45000 if thorough else 36000) if p >= 991 else 6000):
-                big.append((p, e))
-    if not thorough:                     # all pairs with a bound-sized exponent, a sample of the rest
-        keep = [pe for pe in big if pe[1] >= 991 and pe[0] >= 991 and pe[0] <= 1013 or pe[1] < 991]
-        rest = [pe for pe in big if pe not in keep]
-        rng.shuffle(rest)
-        big = keep + rest[:30]
-    for p, e in big:
-        n = p ** e
-        cl = "huge p^e, p %s 1009, e %s" % ("<" if p < 1009 else ">=", "prime" if is_prime(e) else "composite")
-        add("ipp", [n], "ipp", {p: e}, cl)
-        if e >= 991 and rng.chance(1, 3 if not thorough else 1):
-            q = next_prime(p)
-            add("ipp", [n + 2], "ipp", None, "huge non-power p^e+2")
-            add("ipp", [n * q], "ipp", {p: e, q: 1}, "huge non-power p^e*q")
-            add("ipp", [p ** (e - 1) * q], "ipp", {p: e - 1, q: 1}, "huge non-power p^(e-1)*q")
-            add("ipp", [-n], "ipp", {p: e}, "n<0")
-    for p in (1009, 1013, 65537):        # perfect powers of composites with large prime-power shape
+            if p.bit_length() * e > ((45000 if thorough else 36000) if p >= 991 else 6000):
+                continue
+            n = p ** e
+            cl = "huge p^e, p %s 1009, e %s" % ("<" if p < 1009 else ">=", "prime" if is_prime(e) else "composite")
+            add("ipp", [n], "ipp", {p: e}, cl if e >= 991 else "table-bound base, small e")
+            if e >= 991 and (thorough or (p in (997, 1009, 65537) and e in (1009, 2018))):
+                q = next_prime(p)
+                add("ipp", [n + 2], "ipp", None, "huge non-power p^e+2")
+                add("ipp", [n * q], "ipp", {p: e, q: 1}, "huge non-power p^e*q")
+                add("ipp", [p ** (e - 1) * q], "ipp", {p: e - 1, q: 1}, "huge non-power p^(e-1)*q")
+                add("ipp", [-n], "ipp", {p: e}, "n<0")
+    for p in ((1009, 1013, 65537) if thorough else (1009,)):        # perfect powers of composites with large prime-power shape
         q = next_prime(p)
         add("ipp", [(p * q) ** 1009], "ipp", {p: 1009, q: 1009}, "huge (pq)^1009")
         add("ipp", [(p * q) ** 2], "ipp", {p: 2, q: 2}, "(pq)^2")
@@ -1123,6 +1120,21 @@ def install_frag_findings():
     vf.load_known = load
 
 
+def run_parallel(binary, lines, nproc, timeout=1500):
+    """run the (stateless, line-by-line) model driver on round-robin chunks of the input in nproc processes"""
+    from concurrent.futures import ThreadPoolExecutor
+    chunks = [lines[i::nproc] for i in range(nproc)]
+    with ThreadPoolExecutor(max_workers=nproc) as ex:
+        res = list(ex.map(lambda ch: vf.run_lines(binary, "\n".join(ch) + "\n", timeout=timeout) if ch else (0, [], ""), chunks))
+    rc = max(abs(r[0]) for r in res)
+    out = [None] * len(lines)
+    for i, (r, o, e) in enumerate(res):
+        if len(o) != len(chunks[i]):
+            return (rc or 1), [], "chunk %d: %d/%d lines\n%s" % (i, len(o), len(chunks[i]), e)
+        out[i::nproc] = o
+    return rc, out, "\n".join(r[2] for r in res)[-2000:]
+
+
 # ------------------------------------------------------------------ main
 
 def main(tier, replay=None):
@@ -1189,7 +1201,7 @@ def main(tier, replay=None):
             mlines.append(ml); midx.append(i)
     mout = {}
     if drv:
-        rc, mo, merr = vf.run_lines(drv, "\n".join(mlines) + "\n", timeout=1500)
+        rc, mo, merr = run_parallel(drv, mlines, min(8, vf.NCPU), timeout=1500)
         if rc != 0 or len(mo) != len(mlines):
             chk.broke("model driver failed (rc=%s, %d/%d lines)" % (rc, len(mo), len(mlines)), merr)
         else:
